@@ -458,10 +458,8 @@ static void structured_history(std::uint64_t seed, long long nkeys, const char* 
    ctx().sample(J().s("kind", "structured-history").s("operand_address_order", order).n("operands", (long long)ops.size()).str(), 6);
 }
 
-int main(int argc, char** argv)
+static void body(Ctx& C)
 {
-   auto& C = ctx();
-   C.parse(argc, argv);
    C.rule("a case = one type-constructor request (constructor, canonical key of its arguments); distinct cases = distinct "
           "(constructor,key) pairs; requests are drawn at random over 16 constructors with operands from a growing pool "
           "(26 built-ins, auto, class/union/enum/namespace/closure, decltype, every earlier result), 40% of requests re-ask a "
@@ -481,6 +479,6 @@ int main(int argc, char** argv)
    const char* orders[] = {"ascending", "descending", "organ-pipe"};
    structured_history(seeds.next(), C.thorough ? 20000 : 1500, orders[C.worker % 3]);
    if (C.thorough) for (auto o : orders) structured_history(seeds.next(), 60000, o);
-   C.finish();
-   return 0;
 }
+
+int main(int argc, char** argv) { return guarded_main(argc, argv, body); }
